@@ -90,7 +90,7 @@ def attribute(txt, test_file):
     return sorted(props)
 
 
-def run_tests(ids, timeout=1500):
+def run_tests(ids, timeout=3000, tier='quick'):
     out = []
     lock = open(os.path.join(BUILD, '.lock-native'), 'w')
     fcntl.flock(lock, fcntl.LOCK_EX)
@@ -100,7 +100,7 @@ def run_tests(ids, timeout=1500):
         for tid in ids:
             t = TESTS[tid]
             src = open(os.path.join(VERIF, 'native_inrepo' if t.get('inrepo') else os.path.join('native', 'tests'), t['file'] + '.rs')).read()
-            cpath = os.path.join(BUILD, 'cache', 'native-%s-%s.json' % (tid, hashlib.sha256(('v3' + th + src).encode()).hexdigest()[:24]))
+            cpath = os.path.join(BUILD, 'cache', 'native-%s-%s.json' % (tid, hashlib.sha256(('v3' + tier + th + src).encode()).hexdigest()[:24]))
             os.makedirs(os.path.dirname(cpath), exist_ok=True)
             if os.path.exists(cpath):
                 rec = json.load(open(cpath))
@@ -109,11 +109,11 @@ def run_tests(ids, timeout=1500):
                 continue
             if t.get('inrepo'):
                 cmd = ['cargo', 'test', '--offline', '--features', 'full', '--lib', '--target-dir', os.path.join(BUILD, 'inrepo-target'), t['fn'], '--', '--nocapture']
-                env = dict(os.environ, CARGO_NET_OFFLINE='true', RUSTFLAGS='--cfg tarpc_verif')
+                env = dict(os.environ, CARGO_NET_OFFLINE='true', RUSTFLAGS='--cfg tarpc_verif', VERIF_TIER=tier)
                 cwd = '/repo/tarpc'
             else:
                 cmd = ['cargo', 'test', '--offline', '--target-dir', os.path.join(BUILD, 'native-target'), '--test', t['file'], t['fn'], '--', '--nocapture', '--exact']
-                env = dict(os.environ, CARGO_NET_OFFLINE='true')
+                env = dict(os.environ, CARGO_NET_OFFLINE='true', VERIF_TIER=tier)
                 cwd = os.path.join(VERIF, 'native')
             # keep the lock file in sync with /repo's so that resolution stays offline
             try:
@@ -128,6 +128,7 @@ def run_tests(ids, timeout=1500):
                 raise NativeUndecided('native stand-in %s timed out' % tid)
             txt = p.stdout + p.stderr
             m = re.search(r'VERIF-BOUNDED \w+ evaluations=(\d+)', txt)
+            mb = re.search(r'VERIF-BOUNDED .*? bound=(.*)$', txt, re.M)
             passed = bool(re.search(r'test result: ok\. 1 passed', txt))
             failed = bool(re.search(r'test result: FAILED', txt))
             if not passed and not failed:
@@ -135,7 +136,7 @@ def run_tests(ids, timeout=1500):
             attributed = attribute(txt, t['file']) if failed else []
             fail_lines = [l[:1200] for l in re.findall(r'^VERIF-FAIL .*$', txt, re.M)][:12]
             rec = dict(id=tid, attributed=attributed, fail_lines=fail_lines, cmd='(cd %s && %s%s)' % (cwd, 'RUSTFLAGS="--cfg tarpc_verif" ' if t.get('inrepo') else '', ' '.join(cmd)), passed=passed, evaluations=int(m.group(1)) if m else 0,
-                       functions=t['functions'], bound=t['bound'], why=t['why'], wall_s=time.time() - t0, output_tail=txt[-2500:])
+                       functions=t['functions'], bound=t['bound'] + ((' [this run: ' + mb.group(1).strip()[:200] + ']') if mb and tier == 'thorough' else ''), why=t['why'], wall_s=time.time() - t0, output_tail=txt[-2500:])
             json.dump(rec, open(cpath, 'w'))
             out.append(rec)
         return out
